@@ -645,6 +645,9 @@ func filterFor(prop string, vs []verifkit.Violation) []verifkit.Violation {
 		if prop == "C13" && (strings.HasPrefix(v.Key, "C01/") || strings.HasPrefix(v.Key, "C04/") || strings.HasPrefix(v.Key, "C05/")) {
 			v.Key = "C13/order-acks-positions-affected:" + v.Key // a live reconfigure must leave order, acks and positions unaffected
 		}
+		if prop == "C13" && strings.HasPrefix(v.Key, "C16/running-config-differs-from-stored") && !strings.Contains(v.Key, "/rollback-reopen-failed") && !strings.Contains(v.Key, "/apply-raced") {
+			v.Key = "C13/previous-configuration-not-kept-after-failed-open" // the new configuration could not be opened: only the old one may run afterwards
+		}
 		if prop == "C16" && (strings.HasPrefix(v.Key, "C01/") || strings.HasPrefix(v.Key, "C03/") || strings.HasPrefix(v.Key, "C05/") || strings.HasPrefix(v.Key, "C02/position-covers-unhandled")) {
 			v.Key = "C16/record-lost-or-reordered-across-apply:" + v.Key // the apply must continue from the durable position with no skipped record
 		}
